@@ -15,7 +15,8 @@ RULE = ('exhaustive index space: n=1..6, every ordered target tuple of size 1..3
         'custom gates of kind unitary and custom, placeholder parameters, index shifting). Oracle: dense embedding by bit arithmetic (vf/ref.py), ordered '
         'matrix product. Non-trivial = targets not an ascending adjacent run, or controls present, or a program with a controlled-parametrised / re-used / '
         'custom gate / shift. Distinct = (api, n, targets, controls, container type) resp. program shape signature.'
-        ' Arrays are also handed over as Fortran-ordered / strided / read-only copies, states and density matrices also in real and integer dtypes, index tuples also as negative-stride integer arrays; programs also contain a two-qubit user gate on descending wires; parametrised gates are re-parametrised (set_args, a second setP) and compared with a fresh program.')
+        ' Arrays are also handed over as Fortran-ordered / strided / read-only copies, states and density matrices also in real and integer dtypes, index tuples also as negative-stride integer arrays; programs also contain a two-qubit user gate on descending wires; parametrised gates are re-parametrised (set_args, a second setP) and compared with a fresh program.'
+        ' Marginals also of unnormalised vectors; a user gate that is not the identity at parameter 0.')
 ASSUMPTIONS = ['kraus gates are excluded: Circuit.apply_state asserts they are unsupported for state vectors',
                'reference gate matrices (rx, ry, rz, u3, rzz, H, S, T, Swap) are built from the documented generators in vf/ref.py',
                'tolerance 1e-10 * |op| * |state| for float64 algebra']
